@@ -7,7 +7,7 @@ import gen
 from check_c01 import okoc
 from vlib import lit, ref, tmap
 
-FOREACH_GATES = ['foreach.enable.beforeRecv', 'foreach.execute.beforeRecv', 'foreach.item.beforeExecute', 'wf.handler.beforeLock', 'ev:SProv', 'ev:SSet']
+FOREACH_GATES = ['foreach.enable.beforeRecv', 'foreach.execute.beforeTransition', 'foreach.execute.beforeRecv', 'foreach.item.beforeExecute', 'wf.handler.beforeLock', 'ev:SProv', 'ev:SSet']
 GATES = ['wf.main.beforeKickoff', 'wf.main.beforeSelect', 'wf.handler.beforeLock', 'wf.failure.beforeLock', 'wf.det.beforeLock',
          'plugin.deploy.beforeTry', 'plugin.deploy.beforeWait', 'plugin.deploy.afterMiss', 'plugin.deploy.beforeDeploy', 'plugin.enable.beforeRecv',
          'plugin.enable.afterRecv', 'plugin.start.beforeRecv', 'plugin.start.beforeReadSchema', 'plugin.exec.afterResult',
